@@ -60,6 +60,8 @@ func Main(engines []Engine) {
 		os.Exit(cmdReplay(byID, os.Args[2:]))
 	case "plan":
 		os.Exit(cmdPlan(byID, os.Args[2:]))
+	case "hashes":
+		os.Exit(cmdHashes(byID, os.Args[2:]))
 	case "list":
 		for _, e := range engines {
 			fmt.Println(e.ID(), e.Title())
@@ -518,6 +520,35 @@ func cmdRun(byID map[string]Engine, args []string) int {
 	if harness {
 		fmt.Println("agesim: harness trouble (worker failure); not a violation")
 		return 2
+	}
+	return 0
+}
+
+// cmdHashes prints, for runs [from,to), the verdict clause and the event-log
+// hash: the determinism self-test diffs this output across processes,
+// GOMAXPROCS values and process boundaries.
+func cmdHashes(byID map[string]Engine, args []string) int {
+	fs := flag.NewFlagSet("hashes", flag.ExitOnError)
+	prop := fs.String("prop", "", "")
+	tier := fs.String("tier", "quick", "")
+	seed := fs.Uint64("seed", envSeed(), "")
+	from := fs.Uint64("from", 0, "")
+	to := fs.Uint64("to", 100, "")
+	fs.Parse(args)
+	e := byID[*prop]
+	if e == nil {
+		return 2
+	}
+	for i := *from; i < *to; i++ {
+		plan := e.Generate(NewRNG(RunSeed(*seed, e.ID(), i)), *tier, i)
+		c := &Ctx{Stats: NewStats(), Log: NewLog(false), Tier: *tier}
+		v := SafeExecute(e, Clone(e, plan), c)
+		clause := "-"
+		if v != nil {
+			clause = v.Clause
+		}
+		ph := sha256Hex(PlanJSON(plan))
+		fmt.Printf("%d plan=%s events=%d log=%s verdict=%s\n", i, ph, c.Log.Len(), c.Log.Sum(), clause)
 	}
 	return 0
 }
